@@ -239,6 +239,20 @@ func gen(rng *rand.Rand, tier core.Tier, emit core.Emit) {
 			emit(op, k, core.Hex(BrowserRequest(rng, "gametype='CO-OP'", []string{"hostname", "numplayers", "bogus"}, []byte{0, 0, 0, 1})))
 		}
 	}
+	// the real browser component: valid, malformed and silent clients
+	for _, k := range []string{"0", "2"} {
+		emit("ctcp", k, "none")
+		emit("ctcp", k, "idle")
+		emit("ctcp", k, core.Hex(BrowserRequest(rng, "", []string{"hostname", "gametype"}, []byte{0, 0, 0, 0})))
+		emit("ctcp", k, core.Hex(BrowserRequest(rng, "gametype='CO-OP' and numplayers>0", []string{"hostname", "numplayers", "bogus"}, []byte{0, 0, 0, 1})))
+	}
+	for i := 0; i < 6*(1+9*map[bool]int{true: 1}[tier == core.Thorough]); i++ {
+		if rng.Intn(2) == 0 {
+			emit("ctcp", "1", core.Hex(validRequest(rng)))
+		} else {
+			mutateTCP(rng, func(b []byte) { emit("ctcp", "1", core.Hex(b)) })
+		}
+	}
 	// the cipher under the concurrency of the connection goroutines
 	if tier == core.Thorough {
 		emit("encpar", "64", "400000")
@@ -320,6 +334,8 @@ func exec(op string, args []string) []string {
 			out = runTCP(args, "6")
 		case "encpar":
 			out = runEncPar(args)
+		case "ctcp": // through the real browser component (fx module, tcpserver with the client timeout)
+			out = runComponentTCP(args)
 		case "udpsrv":
 			out = runUDPServer(args)
 		default:
